@@ -1,6 +1,7 @@
 SPECIFICATION Spec
 CONSTANTS
   NilSendEOF = FALSE
+  MaskSkip = TRUE
 INVARIANT Inv
 CONSTRAINT HighWater
 POSTCONDITION Accepted
